@@ -1,6 +1,6 @@
 CONSTANTS
   NDocs = 120
-  NOperators = 35
+  NOperators = 38
   MaxSite = 14
 INIT Init
 NEXT Next
